@@ -69,12 +69,20 @@ func (d *Document) GetVariableBooleanValue(name string) (value, valid bool) {
 	if err == nil {
 		return val, true
 	}
-	for i := range d.VariableDefinitions {
-		definitionName := d.VariableDefinitionNameString(i)
-		if definitionName == name {
-			// the operation is not validated yet: a default that is not a boolean literal is not a boolean value
-			if d.VariableDefinitions[i].DefaultValue.IsDefined && d.VariableDefinitions[i].DefaultValue.Value.Kind == ValueKindBoolean {
-				return bool(d.BooleanValue(d.VariableDefinitions[i].DefaultValue.Value.Ref)), true
+	// Variables are scoped to their operation: only the definitions of the operations that are still part
+	// of the document count. d.VariableDefinitions also holds the definitions of the operations that
+	// were removed because another operation was selected, and a sibling may declare the same name.
+	for _, node := range d.RootNodes {
+		if node.Kind != NodeKindOperationDefinition || !d.OperationDefinitions[node.Ref].HasVariableDefinitions {
+			continue
+		}
+		for _, i := range d.OperationDefinitions[node.Ref].VariableDefinitions.Refs {
+			definitionName := d.VariableDefinitionNameString(i)
+			if definitionName == name {
+				// the operation is not validated yet: a default that is not a boolean literal is not a boolean value
+				if d.VariableDefinitions[i].DefaultValue.IsDefined && d.VariableDefinitions[i].DefaultValue.Value.Kind == ValueKindBoolean {
+					return bool(d.BooleanValue(d.VariableDefinitions[i].DefaultValue.Value.Ref)), true
+				}
 			}
 		}
 	}
